@@ -333,6 +333,9 @@ fn c07_handler_case(d0: Dechunker, assume_valid: bool) {
         }
     };
     assert!(c <= l && o <= ol && o <= c, "C12/counts-within-windows");
+    // `Trailer` is a transient state: the handler that runs in it must leave it (otherwise the
+    // next call would start in a state whose entry condition - a non-empty line ahead - is gone)
+    assert!(!(matches!(d0, Dechunker::Trailer) && matches!(d, Dechunker::Trailer)), "C12/trailer-state-is-left-after-its-line");
     // produced bytes are copies of consumed bytes, in order
     let mut j = 0;
     let mut i = 0;
